@@ -48,7 +48,7 @@ def close(a, b, rel=1e-6, ab=1e-9):
 class C17(Property):
     ID = "C17"
     SESSIONS = ["s0", "s1"]
-    RUNS = {"quick": (1500, 1500), "thorough": (30000, 30000)}
+    RUNS = {"quick": (1500, 2500), "thorough": (30000, 40000)}
     MUST_REACH = {"probes": ["tomograms_populated", "crlf_mdoc", "refused_overwrite", "missing_input", "missing_per_tomogram_file_in_batch", "recovery_after_fault", "wedge_list_tilts_unsorted"], "faults": ["crash", "enospc", "eio_write", "eio_read", "short_read", "eintr", "open_fail", "toctou_removed"]}
 
     def config(self, rng, tier, faulty):
@@ -56,6 +56,9 @@ class C17(Property):
             "max_steps": rng.pick([5, 8, 12]),
             "max_img": rng.pick([1, 3, 9, 30] if tier == "quick" else [1, 3, 9, 30, 80]),
             "max_tomo": rng.pick([1, 2, 3, 5]),
+            # swarm: a run may concentrate on one family of operations (its weights x5), so that long histories on
+            # the same objects - open, remove, failed write, write again - are not diluted by the other families
+            "focus": rng.pick([None, None, "mdoc", "mdoc", "loaders", "wedge"]),
             "env_rate": rng.pick([0.05, 0.15]),
             "env_kinds": ["env.restart", "env.foreign_delete", "env.foreign_put", "env.cwd"],
             "fault_rate": 0.0, "fault_kinds": [],
@@ -87,6 +90,31 @@ class C17(Property):
         return "m%d" % world.model["n"]
 
     # ------------------------------------------------------------------ generation
+    def gen_aftermath(self, world, step, rng):
+        """a write of an Mdoc object failed: the object is still in the caller's hands - looked at and written again"""
+        if step["op"] == "mdoc_write" and step.get("h") in world.session(step["sess"]):
+            yield {"op": "mdoc_inspect", "sess": step["sess"], "h": step["h"]}
+            yield {"op": "mdoc_write", "sess": step["sess"], "h": step["h"], "out": rng.pick([OUTS[0], OUTS[3]]),
+                   "overwrite": True, "removed": rng.chance(0.5)}
+
+    def on_step(self, world, step):
+        world.model["just_removed"] = step.get("h") if step["op"] == "mdoc_remove" else None
+
+    def op_mdoc_inspect(self, world, step):
+        h = self.get_handle(world, step)
+        model = h["model"]
+        out = world.call(step["sess"], lambda: (len(h["obj"].kept_images()), len(h["obj"].removed_images())))
+        world.note("Mdoc kept/removed -> %s" % out.describe())
+        if not out.ok:
+            raise Violation("mdoc_inspect", "inspect:%s" % out.describe(), "kept_images()/removed_images() raised %r\n%s" % (out.exc, out.tb))
+        nrem = len([i for i in model["order"] if i in model["removed"]])
+        world.oracle()
+        if out.value != (len(model["order"]) - nrem, nrem):
+            raise Violation("mdoc_removed", "kept_removed_counts", "the Mdoc object holds %d kept / %d removed images, expected %d / %d" % (
+                out.value[0], out.value[1], len(model["order"]) - nrem, nrem))
+        self.check_mdoc_obj(world, h["obj"], model, h["t"], "the Mdoc object")
+        return []
+
     def gen_step(self, world, rng):
         sess = rng.pick(self.SESSIONS)
         cfg = world.cfg
@@ -107,6 +135,15 @@ class C17(Property):
                ("mdoc_func", 2), ("reread", 2), ("sg_to_em", 2), ("foreign_wedge", 1)]
         if handles:
             ops += [("mdoc_sort", 3), ("mdoc_remove", 3), ("mdoc_write", 4)]
+        focus = cfg.get("focus")
+        if focus:
+            fam = {"mdoc": ("mdoc_", "reread"), "loaders": ("load",), "wedge": ("wedge_", "sg_to_em", "foreign_wedge")}[focus]
+            ops = [(o, w * 5 if o.startswith(fam) else w) for o, w in ops]
+        edited = [h for h in handles if hs[h]["model"]["removed"]]
+        if edited and rng.chance(0.6 if world.model.get("just_removed") in edited else 0.2):
+            # an object that carries removals is what gets written next (the interesting state is in flight)
+            return {"op": "mdoc_write", "sess": sess, "h": rng.pick(edited), "out": rng.pick([OUTS[0], OUTS[3], None]),
+                    "overwrite": rng.chance(0.7), "removed": rng.chance(0.2), "io": True, "hint": {"write": 2, "stat": 2, "any": 6}}
         op = rng.weighted(ops)
         t = rng.pick(tomos)
         nimg = len(world.model["tomos"][t]["tilts"])
@@ -230,6 +267,7 @@ class C17(Property):
         fn = getattr(self, "op_" + step["op"], None)
         if fn is None:
             raise Skip()
+        self.on_step(world, step)
         return fn(world, step)
 
     def op_populate(self, world, step):
